@@ -9,6 +9,8 @@ def cases(tier, seed):
                 for bias in ((False, True) if kind in ("L2Reg", "L2Reg+l1", "L2Proj", "LInfProj") else (False,)):
                     for alpha in (0.7, 3.0):
                         yield dict(fn="prox.check", args=dict(kind=kind, shape=shape, complex=cplx, special=special, bias=bias, alpha=alpha, seed=seed))
+    for shape in ((5,), (3, 4)):
+        yield dict(fn="prox.check", args=dict(kind="Box", shape=shape, complex=False, int_input=True, alpha=0.7, seed=seed))
     for shape in ((3, 4),):
         for axes in ((0,), (-1,), (0, 1)):
             yield dict(fn="prox.check", args=dict(kind="L2Proj", shape=shape, complex=True, axes=axes, bias=True, seed=seed))
@@ -19,5 +21,5 @@ def cases(tier, seed):
 
 def groups(tier, seed):
     yield dict(name="prox objects: returned point is not beaten by 200 random (feasible) candidates; projections idempotent; shapes",
-               bound="shapes (5,), (3,4)(+(2,3,2)), real/complex, alpha in {0.7,3}, inputs random/zero/on-threshold/feasible/boundary, with/without bias; "
+               bound="shapes (5,), (3,4)(+(2,3,2)), real/complex, alpha in {0.7,3}, inputs random/zero/on-threshold/feasible/boundary, with/without bias; BoxConstraint also on an integer-dtype input; "
                      "PsdProj with repeated and distinct eigenvalues n in {2,4,5}", cases=cases(tier, seed))
